@@ -84,7 +84,15 @@ pub enum CfgSection {
     /// native section: unbonding period, validators subset, new staker/collector index (quiescent only)
     Native { unbonding: u64, validators: Vec<u8>, staker: u8, collector: u8 },
     /// protocol section: min stake, oracle present?, channel number (quiescent only)
-    Protocol { #[serde(with = "ustr")] min_stake: u128, oracle: bool, channel: u64 },
+    Protocol {
+        #[serde(with = "ustr")]
+        min_stake: u128,
+        oracle: bool,
+        channel: u64,
+        /// spelling of the channel id: 0/1 canonical, 2 leading zeros, 3 explicit plus sign (all accepted by validation)
+        #[serde(default)]
+        spell: u8,
+    },
 }
 
 #[derive(Serialize, Deserialize, Clone, Debug, PartialEq)]
@@ -232,4 +240,7 @@ pub struct Swarm {
     /// that no check relies on a downstream module masking an arithmetic slip)
     #[serde(default)]
     pub zero_ibc_ok: bool,
+    /// whether the token factory accepts zero-amount mints (the real modules refuse them)
+    #[serde(default)]
+    pub zero_tf_ok: bool,
 }
